@@ -177,8 +177,14 @@ MCResume ==
     /\ atOne' = Cardinality({t \in DOMAIN disk[1].hist : disk[1].hist[t].beta = cfg.one})
     /\ UNCHANGED <<nextId, disk, crashes, bad>>
 
+\* named deviation of the pinned code (PSRun!RunAgain): run() called again on a finished sampler resets the counters and keeps the
+\* history.  Enabled only in the variant "runagain", where TLC must REFUTE the cross-run readings of the history invariants
+\* (HistBetaMonotone / OneBatchPerIteration / HistIters hold within one run, not across two) - a witness, not a defect of a property.
+MCRunAgain == ImplVariant = "runagain" /\ RunAgain /\ atOne' = 0 /\ UNCHANGED <<nextId, ckvars, bad>>
+
 MCNext ==
     \/ (InitFresh /\ UNCHANGED <<nextId, atOne, ckvars, bad>>)
+    \/ MCRunAgain
     \/ MCSave \/ MCCrash \/ MCResume
     \/ MCReweight \/ MCTrain \/ MCResample \/ MCMutatePrior \/ MCMutateBegin
     \/ MCSweep \/ MCMutateEnd \/ MCCommit \/ MCTerminate
